@@ -1433,6 +1433,12 @@ impl World {
 
     /// Applies a mutation that an adversary might try. Returns the label of the mutation.
     pub fn mutate(&mut self, tx: &mut Transaction) -> String {
+        let k = self.rng.below(17);
+        self.mutate_kind(tx, k)
+    }
+
+    /// The hostile mutator number `k` (0..=16) applied to `tx`.
+    pub fn mutate_kind(&mut self, tx: &mut Transaction, k: u64) -> String {
         let inputs: Vec<(CoinID, CoinDataHeight)> =
             tx.inputs.iter().filter_map(|i| self.utxo.get(i).map(|c| (*i, c.clone()))).collect();
         let resign = |w: &World, tx: &mut Transaction| {
@@ -1440,7 +1446,19 @@ impl World {
                 w.sign(tx, &inputs);
             }
         };
-        match self.rng.below(16) {
+        match k {
+            16 => {
+                // a new token next to an output that claims one unit more than the inputs hold: the new-token output is
+                // exempt from the balance rule, every other output is not - in whatever order the rule visits them
+                if let Some(o) = tx.outputs.iter_mut().find(|o| o.denom != Denom::NewCustom && o.value.0 < MAX_COINVAL) {
+                    o.value = CoinValue(o.value.0 + 1);
+                }
+                let dest = self.random_addr();
+                let v = 1 + self.rng.below(1000) as u128;
+                tx.outputs.push(CoinData { covhash: dest, value: CoinValue(v), denom: Denom::NewCustom, additional_data: Bytes::new() });
+                resign(self, tx);
+                "unbalanced-next-to-a-new-token".into()
+            }
             0 => {
                 if let Some(o) = tx.outputs.first_mut() {
                     o.value = CoinValue(o.value.0.saturating_add(1));
